@@ -18,7 +18,9 @@ import (
 	"golang.org/x/tools/go/ssa/ssautil"
 )
 
-const repoDir = "/repo"
+// repoDir is the tree the encoding is regenerated from; GOSMT_REPO overrides it (used to try a check against a scratch
+// worktree carrying a seeded change, so that /repo itself stays untouched)
+var repoDir = "/repo"
 
 type UnitCfg struct {
 	Name       string              `json:"name"`
@@ -110,6 +112,9 @@ func main() {
 	}
 	if d := os.Getenv("VERIF_DIR"); d != "" {
 		verifDir = d
+	}
+	if d := os.Getenv("GOSMT_REPO"); d != "" {
+		repoDir = d
 	}
 	switch os.Args[1] {
 	case "check":
